@@ -264,6 +264,17 @@ def case(ctx, rng, big=False):
         ctx.count("feature", "four-or-more-charges")
     if x is None or not x.blocks:
         return
+    if not big and rng.random() < 0.06:
+        # one ndarray OBJECT stored under several sectors (blocks={(0, 0): a, (1, 1): a}):
+        # the factors of such sectors must still be independent arrays
+        by_shape = {}
+        for s_, b_ in x.blocks.items():
+            by_shape.setdefault(np.asarray(b_).shape, []).append(s_)
+        for shp_, secs_ in by_shape.items():
+            if len(secs_) >= 2 and min(shp_) >= 1:
+                for s_ in secs_[1:]:
+                    x.blocks[s_] = x.blocks[secs_[0]]
+                feats = set(feats) | {"one-ndarray-object-in-several-sectors"}
     if rng.random() < 0.15:
         # the rules are either scale covariant (absolute cutoffs are drawn from the spectrum)
         # or scale free (relative modes): rescale the data by many orders of magnitude
